@@ -97,10 +97,11 @@ def forward_checks(rep, fnd, pid, tier):
     for (biort, qshift) in FAMILIES:
         for (H, W) in sizes1:
             for colour in (False, True):
+              b0 = biases[(FAMILIES.index((biort, qshift)) + sizes1.index((H, W)) + int(colour)) % 4]     # every bias with every family
+              for b in ([b0] if tier == "quick" else biases):
                 C = 3 if colour else int(rng.integers(1, 4))
-                b = biases[(FAMILIES.index((biort, qshift)) + sizes1.index((H, W)) + int(colour)) % 4]     # every bias with every family
                 lay = pw.ScatLayer(biort=biort, magbias=b, combine_colour=colour)
-                for kind, x in scat_inputs(rng, (2, C, H, W))[:4 if tier == "quick" else 6]:
+                for kind, x in scat_inputs(rng, (2 if tier == "quick" else 3, C, H, W))[:4 if tier == "quick" else 6]:
                     cfg = dict(layer="ScatLayer", biort=biort, H=H, W=W, C=C, magbias=b, combine_colour=colour, input=kind)
                     case = {"api": "ScatLayer", "check": "scat_forward", "cfg": cfg}
                     rep.validated()
@@ -131,8 +132,9 @@ def forward_checks(rep, fnd, pid, tier):
     for (biort, qshift) in FAMILIES[:3] if tier == "quick" else FAMILIES:
         if biort == "near_sym_b_bp" or True:
             for (H, W) in sizes2:
-                C = int(rng.integers(1, 3))
-                b = biases[(sizes2.index((H, W)) + FAMILIES.index((biort, qshift))) % 4]
+              b0 = biases[(sizes2.index((H, W)) + FAMILIES.index((biort, qshift))) % 4]
+              for b in ([b0] if tier == "quick" else biases):
+                C = int(rng.integers(1, 3)) if tier == "quick" else int(rng.integers(1, 5))
                 lay = pw.ScatLayerj2(biort=biort, qshift=qshift, magbias=b)
                 for kind, x in scat_inputs(rng, (1, C, H, W))[:3 if tier == "quick" else 6]:
                     cfg = dict(layer="ScatLayerj2", biort=biort, qshift=qshift, H=H, W=W, C=C, magbias=b, input=kind)
@@ -237,10 +239,31 @@ def backward_checks(rep, fnd, pid, tier):
     layers.append(("ScatLayer(near_sym_a, odd size)", lambda: pw.ScatLayer(magbias=1e-2), (1, 2, 7, 9)))
     layers.append(("ScatLayerj2(near_sym_a, size 12x10)", lambda: pw.ScatLayerj2(magbias=1e-2), (1, 1, 12, 10)))
     layers.append(("ScatLayer(magbias=1)", lambda: pw.ScatLayer(magbias=1.0), (2, 1, 6, 6)))
+    # wide / deep batches (the backward's view arithmetic is per (batch, band, channel): thresholds show only there)
+    layers.append(("ScatLayer(near_sym_b_bp, 17 channels)", lambda: pw.ScatLayer(biort="near_sym_b_bp", magbias=1e-2), (1, 17, 4, 6)))
+    layers.append(("ScatLayerj2(near_sym_b_bp, batch 2 x 5 channels)",
+                   lambda: pw.ScatLayerj2(biort="near_sym_b_bp", qshift="qshift_b_bp", magbias=1e-2), (2, 5, 8, 8)))
+    layers.append(("ScatLayerj2(near_sym_a, batch 3 x 2 channels)", lambda: pw.ScatLayerj2(magbias=0.3), (3, 2, 8, 8)))
+    if tier != "quick":
+        for (biort, qshift) in FAMILIES:
+            for colour in (False, True):
+                for b in (1e-3, 0.3):
+                    for shape in ([(1, 1, 8, 6), (2, 2, 6, 10), (1, 5, 4, 4)] if not colour else [(2, 3, 6, 10), (1, 3, 5, 7)]):
+                        layers.append(("ScatLayer(%s,colour=%s,magbias=%g,%s)" % (biort, colour, b, "x".join(map(str, shape))),
+                                       lambda biort=biort, colour=colour, b=b: pw.ScatLayer(biort=biort, magbias=b, combine_colour=colour), shape))
+                    for shape in ([(1, 1, 8, 8), (2, 2, 8, 16), (1, 4, 16, 8)] if not colour else [(2, 3, 8, 8), (1, 3, 16, 8)]):
+                        layers.append(("ScatLayerj2(%s,colour=%s,magbias=%g,%s)" % (biort, colour, b, "x".join(map(str, shape))),
+                                       lambda biort=biort, qshift=qshift, colour=colour, b=b: pw.ScatLayerj2(
+                                           biort=biort, qshift=qshift, magbias=b, combine_colour=colour), shape))
+            layers.append(("ScatLayer(%s,mode=zero,batch 2)" % biort, lambda biort=biort: pw.ScatLayer(biort=biort, magbias=0.1, mode="zero"), (2, 2, 8, 8)))
     for name, make, shape in layers:
         lay = make()
         points = [("generic", rng.standard_normal(shape)), ("zero image", np.zeros(shape)),
                   ("tiny", rng.standard_normal(shape) * 1e-9), ("huge", rng.standard_normal(shape) * 1e8)]
+        if tier != "quick":
+            sp = rng.standard_normal(shape) * (rng.uniform(size=shape) < 0.15)
+            mixed = rng.standard_normal(shape) * np.exp(rng.uniform(-3, 3, size=(shape[0], shape[1], 1, 1)))
+            points += [("sparse", sp), ("per-channel scales", mixed)]
         for pname, x0 in points:
             x = torch.tensor(x0, requires_grad=True)
             z = lay(x)
@@ -259,7 +282,7 @@ def backward_checks(rep, fnd, pid, tier):
                     return float((lay(torch.tensor(xx)) * c).sum())
             scale = max(np.abs(x0).max(), 1e-2)
             ok = True
-            dirs = [rng.standard_normal(shape) for _ in range(3)]
+            dirs = [rng.standard_normal(shape) for _ in range(3 if tier == "quick" else 6)]
             e = np.zeros(shape)
             e.flat[int(rng.integers(0, e.size))] = 1.0
             dirs.append(e)
@@ -272,10 +295,14 @@ def backward_checks(rep, fnd, pid, tier):
                 eps = 1e-5 * scale
                 if pname == "zero image":
                     eps = 1e-6          # |x| << bias: the function is smooth (quadratic) around zero
-                fd = fd_check(f, x0, d, eps)
+                fd1 = fd_check(f, x0, d, eps)
+                fd2 = fd_check(f, x0, d, eps / 2)
+                fd = (4 * fd2 - fd1) / 3          # Richardson: removes the eps^2 truncation term of the central difference
                 an = float((g.numpy() * d).sum())
-                tol = 1e-5 * (abs(fd) + abs(an)) + 1e-7 * float(c.abs().sum()) * (eps ** 2 * 1e4 + 1e-9 * scale)
-                if abs(fd - an) > tol:
+                # |fd2 - fd1| measures the truncation error actually present at this point (the smooth modulus has
+                # curvature ~ 1/bias where |z| ~ bias): it widens the tolerance there instead of raising a false alarm
+                tol = 1e-5 * (abs(fd) + abs(an)) + 0.5 * abs(fd2 - fd1) + 1e-7 * float(c.abs().sum()) * (eps ** 2 * 1e4 + 1e-9 * scale)
+                if not (abs(fd - an) <= tol):
                     ok = False
                     rep.violation("%s: back-propagated directional derivative %.10g differs from the central finite difference %.10g at the %s"
                                   % (name, an, fd, pname), dict(case, analytic=an, finite_difference=fd))
